@@ -196,5 +196,25 @@ def main(argv=None):
     return 0
 
 
+def _main_in_private_tmp():
+    """everything the real code writes to the system temp directory during a run (client result files, Monte-Carlo inputs ...) goes to a directory
+    of this run, removed at the end: a check leaves nothing behind under /tmp."""
+    import shutil
+    import tempfile
+    d = tempfile.mkdtemp(prefix='symx_run_')
+    old_env, old_td = os.environ.get('TMPDIR'), tempfile.tempdir
+    os.environ['TMPDIR'] = d
+    tempfile.tempdir = d
+    try:
+        return main()
+    finally:
+        tempfile.tempdir = old_td
+        if old_env is None:
+            os.environ.pop('TMPDIR', None)
+        else:
+            os.environ['TMPDIR'] = old_env
+        shutil.rmtree(d, ignore_errors=True)
+
+
 if __name__ == '__main__':
-    sys.exit(main())
+    sys.exit(_main_in_private_tmp())
